@@ -105,6 +105,9 @@ let parse_op (o : string) (impl_step : string) : zop =
   | "reduce" ->
     let code = (match f.(1) with "sum" -> 0 | "min" -> 1 | "max" -> 2 | o -> failwith o) in
     ZReduce (z_of_int code, nat 2, zs f.(3), (String.length impl_step >= 3 && String.sub impl_step 0 3 = "err"))
+  | "stack" -> ZStack (nat 1, z_of_int (int_of_string f.(2)), List.map (fun i -> nat_of_int i) (ints f.(3)))
+  | "concat" -> ZConcat (nat 1, z_of_int (int_of_string f.(2)), List.map (fun i -> nat_of_int i) (ints f.(3)))
+  | "repeat" -> ZRepeat (nat 1, z_of_int (int_of_string f.(2)), zs f.(3))
   | "arg" ->
     let code = (match f.(1) with "max" -> 0 | "min" -> 1 | o -> failwith o) in
     ZArg (z_of_int code, nat 2, z_of_int (int_of_string f.(3)), (String.length impl_step >= 3 && String.sub impl_step 0 3 = "err"))
@@ -198,6 +201,7 @@ let gname = function
   | GOrderMix -> "order-mix" | GScalarLeftView -> "scalar-left-view" | GShapeSoft -> "shape-soft"
   | GModeUnsupported -> "mode-unsupported" | GScalarShaped -> "scalar-shaped"
   | GReduceDefault -> "reduce-default" | GFlatRawWindow -> "flat-raw-window"
+  | GShapeMisfit -> "shape-misfit"
   | GOther -> "other"
 
 let operand_ids (o : string) : int list =
@@ -207,6 +211,8 @@ let operand_ids (o : string) : int list =
   | "copy" -> [int_of_string f.(1); int_of_string f.(2)]
   | "bin" | "cmp" -> [int_of_string f.(2); int_of_string f.(3)]
   | "bins" | "cmps" | "un" | "reduce" | "arg" -> [int_of_string f.(2)]
+  | "stack" | "concat" -> int_of_string f.(1) :: ints f.(3)
+  | "repeat" -> [int_of_string f.(1)]
   | _ -> (try [int_of_string f.(1)] with _ -> [])
 
 (* extension point: operand ids of operations added by other driver modules *)
